@@ -77,6 +77,7 @@ def gen(rng, tier, i):
             pairs.append({'kind': 'gpu', 'sched': s, 'block': wavegen.gen_block(rng)})
         elif kind == 'lanes':
             n2 = rng.choice([sims, sims + 1, sims + 3, max(1, sims - 1), 9, 9, 33])
+            if rng.random() < 0.03: n2 = 260      # beyond one byte of lane numbers, several thread blocks
             perm = list(range(n2)); rng.shuffle(perm)
             lane_map = [perm[l] if l < n2 else None for l in range(sims)]
             pairs.append({'kind': 'lanes', 'sims2': n2, 'lane_map': lane_map, 'cls': rng.choice(['cpu', 'gpu']),
